@@ -8,6 +8,7 @@ import (
 	"math/rand"
 	"os"
 	"strings"
+	"time"
 
 	"github.com/tdewolff/canvas"
 	"github.com/tdewolff/canvas/text"
@@ -447,7 +448,7 @@ func (d Driver) ValidateCalls(c *core.Ctx, calls []Call) {
 	c.AddExtra("trace_lines_checked", int64(nbreaks))
 	c.SetExtra("trace_max_items", maxItems)
 	files := map[string][]byte{"trace_kp.ndjson": buf.Bytes()}
-	res := c.TLC(tlc.Opts{Module: "Trace_KnuthPlass", Workers: 1, Files: files, Config: tcfg(true)}, false)
+	res := c.TLC(tlc.Opts{Module: "Trace_KnuthPlass", Workers: 1, Files: files, Config: tcfg(true), Timeout: 40 * time.Minute}, false)
 	if res.OK {
 		c.Count(int64(len(idx)), 0, int64(len(idx)))
 		if len(idx) > 0 {
@@ -456,7 +457,7 @@ func (d Driver) ValidateCalls(c *core.Ctx, calls []Call) {
 		return
 	}
 	// rejected: let the spec explain every failing event, report each as a call-level witness
-	exp := c.TLC(tlc.Opts{Module: "Trace_KnuthPlass", Workers: 1, Files: files, Config: tcfg(false)}, true)
+	exp := c.TLC(tlc.Opts{Module: "Trace_KnuthPlass", Workers: 1, Files: files, Config: tcfg(false), Timeout: 40 * time.Minute}, true)
 	found := false
 	for _, p := range exp.Lines {
 		var x explain
